@@ -3,7 +3,10 @@ package harness
 // Generator for the txfee stream: message-fee schedule × floor price × declared fee
 // {below, at, above, top-level-only; 1–3 denoms} × gas × payer balance × fee grant × bodies of
 // 1–3 messages (sends that succeed or overspend, authz MsgExec with nested messages,
-// MsgAssessCustomMsgFee, exchange payments with a handler-level fee).
+// MsgAssessCustomMsgFee, exchange payments with a handler-level fee) × (for a share of the cases)
+// a committed change of the fee configuration between mempool admission and execution
+// (floor price raised / lowered / other denom, message fees added / raised / lowered / removed /
+// other denom or recipient, conversion rate changed) followed by a mempool recheck.
 
 import (
 	"fmt"
@@ -245,9 +248,19 @@ func txfeeGen(rng *RNG, out *Out) *txfeeOp {
 	case m < 80:
 		mode = "below"
 		if d := pickDenom(declared); d != "" {
-			if rng.Chance(25) {
+			switch x := rng.Intn(100); {
+			case x < 25:
 				delete(declared, d)
-			} else {
+			case x < 45 && declared[d].Cmp(big.NewInt(20)) > 0:
+				// only a token amount of one required denom (the others are covered in full)
+				declared[d] = big.NewInt(int64(1 + rng.Intn(10)))
+				mode = "below_token"
+			case x < 60 && len(declared) > 1:
+				// covers (generously) exactly one of the required denoms, nothing of the others
+				keep := new(big.Int).Add(declared[d], big.NewInt(int64(rng.Intn(1000))))
+				declared = txfeeNeed{d: keep}
+				mode = "below_onedenom"
+			default:
 				declared[d].Sub(declared[d], big.NewInt(1))
 			}
 		}
@@ -265,6 +278,148 @@ func txfeeGen(rng *RNG, out *Out) *txfeeOp {
 		if base.Sign() > 0 {
 			declared.add(floorDenom, new(big.Int).Sub(base, big.NewInt(int64(1+rng.Intn(5)))))
 		}
+	}
+	// ---- a committed change of the fee configuration while the tx waits in the mempool ----
+	if rng.Chance(35) {
+		op.re = true
+		op.floor2, op.convD2, op.convR2 = op.floor, op.convD, op.convR
+		op.sched2 = append([]txfeeSched(nil), op.sched...)
+		nch := 1 + rng.Intn(2)
+		if rng.Chance(10) {
+			nch = 0 // recheck against an unchanged configuration
+			out.Count("chg:none")
+		}
+		for i := 0; i < nch; i++ {
+			switch c := rng.Intn(100); {
+			case c < 30: // floor price raised
+				f := op.floor2.Amount
+				switch rng.Intn(4) {
+				case 0:
+					f = f.AddRaw(1)
+				case 1:
+					f = f.MulRaw(2).AddRaw(int64(rng.Intn(2)))
+				case 2:
+					f = f.MulRaw(3)
+				default:
+					f = f.AddRaw(Pick(rng, []int64{5, 19, 1905}))
+				}
+				op.floor2.Amount = f
+				out.Count("chg:floor_up")
+			case c < 40: // floor price lowered
+				op.floor2.Amount = Pick(rng, []sdkmath.Int{sdkmath.ZeroInt(), op.floor2.Amount.QuoRaw(2), op.floor2.Amount.SubRaw(1)})
+				if op.floor2.Amount.IsNegative() {
+					op.floor2.Amount = sdkmath.ZeroInt()
+				}
+				out.Count("chg:floor_down")
+			case c < 47: // floor price in another denom
+				if op.floor2.Denom == "nhash" {
+					op.floor2.Denom = "hotdog"
+				} else {
+					op.floor2.Denom = "nhash"
+				}
+				if op.floor2.Amount.IsZero() {
+					op.floor2.Amount = sdkmath.OneInt()
+				}
+				out.Count("chg:floor_denom")
+			case c < 62: // a message type gets a fee it did not have
+				var free []string
+				for _, ty := range []string{"send", "send", "exec", "assess", "pay"} {
+					has := false
+					for _, sc := range op.sched2 {
+						has = has || sc.typ == ty
+					}
+					if !has {
+						free = append(free, ty)
+					}
+				}
+				if len(free) > 0 {
+					op.sched2 = append(op.sched2, txfeeSched{typ: Pick(rng, free), fee: sdk.Coin{Denom: Pick(rng, feeDenoms), Amount: bigAmt()}, rcp: Pick(rng, rcps), bips: Pick(rng, bipsSet)})
+					out.Count("chg:fee_added")
+				}
+			case c < 92 && len(op.sched2) > 0: // an existing message fee is changed
+				j := rng.Intn(len(op.sched2))
+				sc := op.sched2[j]
+				switch rng.Intn(6) {
+				case 0:
+					sc.fee.Amount = sc.fee.Amount.AddRaw(1)
+					out.Count("chg:fee_up")
+				case 1:
+					sc.fee.Amount = sc.fee.Amount.MulRaw(2)
+					out.Count("chg:fee_up")
+				case 2:
+					sc.fee.Amount = sc.fee.Amount.AddRaw(Pick(rng, txfeeFeeAmts))
+					out.Count("chg:fee_up")
+				case 3:
+					if sc.fee.Amount.GT(sdkmath.OneInt()) {
+						sc.fee.Amount = sc.fee.Amount.QuoRaw(2)
+					}
+					out.Count("chg:fee_down")
+				case 4:
+					sc.fee.Denom = Pick(rng, feeDenoms)
+					out.Count("chg:fee_denom")
+				default:
+					sc.rcp, sc.bips = Pick(rng, rcps), Pick(rng, bipsSet)
+					out.Count("chg:fee_split")
+				}
+				op.sched2[j] = sc
+				if rng.Chance(15) {
+					op.sched2 = append(op.sched2[:j], op.sched2[j+1:]...)
+					out.Count("chg:fee_removed")
+				}
+			default: // conversion rate (custom assessed usd fees)
+				op.convR2 = Pick(rng, []uint64{0, 1, 25, 26, 50, 1000, 40000})
+				out.Count("chg:conv")
+			}
+		}
+		// what the new configuration requires of this body
+		need2, needTop2 := txfeeNeedsOf(body, op.sched2, payfee, op.convD2, op.convR2)
+		base2 := new(big.Int).Mul(op.floor2.Amount.BigInt(), new(big.Int).SetUint64(op.gas))
+		req2, reqTop2 := need2.clone(), needTop2.clone()
+		req2.add(op.floor2.Denom, base2)
+		reqTop2.add(op.floor2.Denom, base2)
+		raise := func(to txfeeNeed) {
+			for d, v := range to {
+				if declared[d] == nil || declared[d].Cmp(v) < 0 {
+					declared[d] = new(big.Int).Set(v)
+				}
+			}
+		}
+		// the declared fee must get past the FIRST check for the rest to matter
+		switch m := rng.Intn(100); {
+		case m < 40:
+			out.Count("refee:keep") // as chosen against the first configuration
+		case m < 72:
+			raise(req)
+			raise(req2)
+			out.Count("refee:covers_both")
+		case m < 82:
+			raise(req)
+			raise(reqTop2) // passes the recheck; nested / handler fees of the new schedule uncovered
+			out.Count("refee:covers_top2")
+		default:
+			raise(req)
+			raise(req2)
+			// one unit (or a whole denom) short of what only the NEW configuration demands
+			var cand []string
+			for d, v := range reqTop2 {
+				if v.Sign() > 0 && (req[d] == nil || req[d].Cmp(v) < 0) {
+					cand = append(cand, d)
+				}
+			}
+			sort.Strings(cand)
+			if len(cand) > 0 {
+				d := cand[rng.Intn(len(cand))]
+				if req[d] == nil && rng.Chance(30) {
+					delete(declared, d)
+				} else {
+					declared[d] = new(big.Int).Sub(reqTop2[d], big.NewInt(1))
+				}
+				out.Count("refee:short_of_new")
+			} else {
+				out.Count("refee:covers_both")
+			}
+		}
+		out.Count("re")
 	}
 	out.Count("fee:" + mode)
 	op.fee = declared.coins()
@@ -365,4 +520,64 @@ func txfeeGen(rng *RNG, out *Out) *txfeeOp {
 	}
 	op.force = rng.Chance(50)
 	return op
+}
+
+// txfeeNeedsOf: the additional fees a body incurs under a given schedule (all routed messages
+// and handler fees; and the top-level messages only, which is what the mempool check sees).
+func txfeeNeedsOf(body []string, sched []txfeeSched, payfee *sdk.Coin, convD string, convR uint64) (need, needTop txfeeNeed) {
+	need, needTop = txfeeNeed{}, txfeeNeed{}
+	schedOf := func(ty string) *txfeeSched {
+		for i := range sched {
+			if sched[i].typ == ty {
+				return &sched[i]
+			}
+		}
+		return nil
+	}
+	depth := 0
+	add := func(d string, x *big.Int) {
+		need.add(d, x)
+		if depth == 0 {
+			needTop.add(d, x)
+		}
+	}
+	for _, tk := range body {
+		ty := ""
+		switch {
+		case tk == ")":
+			depth--
+			continue
+		case tk == "exec(":
+			ty = "exec"
+		case strings.HasPrefix(tk, "send:"):
+			ty = "send"
+		case strings.HasPrefix(tk, "assess:"):
+			ty = "assess"
+		case strings.HasPrefix(tk, "pay:"):
+			ty = "pay"
+		default:
+			continue
+		}
+		if sc := schedOf(ty); sc != nil {
+			add(sc.fee.Denom, sc.fee.Amount.BigInt())
+		}
+		switch ty {
+		case "assess":
+			f := strings.Split(tk, ":")
+			if c, err := txfeeCoin(f[1]); err == nil {
+				if c.Denom == "usd" {
+					add(convD, new(big.Int).Mul(c.Amount.BigInt(), new(big.Int).SetUint64(convR)))
+				} else if c.Denom == convD {
+					add(convD, c.Amount.BigInt())
+				}
+			}
+		case "pay":
+			if payfee != nil {
+				need.add(payfee.Denom, payfee.Amount.BigInt())
+			}
+		case "exec":
+			depth++
+		}
+	}
+	return need, needTop
 }
